@@ -19,7 +19,8 @@ REL = 1e-8               # the property's tolerance for intensive quantities
 LOG10 = math.log(10.0)
 KINDS = ["speciation", "batch", "exchange", "surface", "gas", "kinetics", "mix"]
 FAMILIES = ["units", "water", "perm_lines", "perm_blocks", "renumber", "dupline", "dupblock", "spread", "mix_swap",
-            "mix_selfline", "mix_selfcopy"]
+            "mix_selfline", "mix_selfcopy", "mix_fscale", "mix_self_amount", "mix_self_split", "mix_nested", "mix_nested2",
+            "mix_nested_water"]
 
 
 def hx(s):
@@ -376,28 +377,32 @@ def cellval(c):
     return None
 
 
-def compare_tables(obs, ra, rb, k, last_only=False, stats=None):
-    """ra: base rows (first row = headings), rb: transformed; extensive columns scale by k. → None or text"""
-    if len(ra) != len(rb):
+def compare_tables(obs, ra, rb, k, last_only=False, stats=None, last_k=None):
+    """ra: base rows (first row = headings), rb: transformed; extensive columns scale by k. last_only: only the final
+    rows are compared (row counts may differ: nested mixes, re-ordered initial solutions); last_k: factor of the final row
+    when only that row is scaled (MIX fractions). → None or text"""
+    if len(ra) != len(rb) and not last_only:
         return f"row counts differ: {len(ra)} vs {len(rb)}"
-    if not ra:
-        return None
+    if len(ra) < 2 or len(rb) < 2:
+        return None if len(ra) == len(rb) else f"row counts differ: {len(ra)} vs {len(rb)}"
     if ra[0] != rb[0]:
         return "headings differ"
     heads = [unhex(c[1:]) if c[0] == "S" else "?" for c in ra[0]]
-    rows = list(range(1, len(ra)))
+    rows = [(r, r) for r in range(1, len(ra))]
     if last_only:
-        rows = rows[-1:]
-    for r in rows:
+        rows = [(len(ra) - 1, len(rb) - 1)]
+    kk = k
+    for r, r2 in rows:
+        k = last_k if (last_k is not None and r == len(ra) - 1) else kk
         va = {h: cellval(c) for h, c in zip(heads, ra[r])}
-        vb = {h: cellval(c) for h, c in zip(heads, rb[r])}
+        vb = {h: cellval(c) for h, c in zip(heads, rb[r2])}
         mu = max(abs(va.get("i:mu") or 0.0), 1e-7)
         water = abs(va.get("e:water") or 1.0)
         for h in heads:
             a, b = va[h], vb[h]
             if a is None or b is None:
-                if ra[r][heads.index(h)] != rb[r][heads.index(h)]:
-                    return f"row {r} {h}: {ra[r][heads.index(h)]} vs {rb[r][heads.index(h)]}"
+                if ra[r][heads.index(h)] != rb[r2][heads.index(h)]:
+                    return f"row {r} {h}: {ra[r][heads.index(h)]} vs {rb[r2][heads.index(h)]}"
                 continue
             tag, name = h.split(":", 1)
             if tag == "p":
@@ -466,15 +471,15 @@ def floor_for(name, mu, ext, extensive, row=None):
     return 0.0
 
 
-def make_pair(rng, db, kind=None, fam=None):
+def make_pair(rng, db, kind=None, fam=None, emph=None):
     kind = kind or rng.choice(KINDS)
     fams = [f for f in FAMILIES if (f.startswith("mix_")) == (kind == "mix") or f in ("units", "water", "perm_lines", "renumber", "perm_blocks")]
     if kind != "mix":
         fams = [f for f in fams if not f.startswith("mix_")]
     fam = fam or rng.choice(fams)
-    sysm = G.System(rng, db, kind, fam)
+    sysm = G.System(rng, db, kind, emph or fam)
     seedp = rng.randrange(1 << 30)
-    v0, v1, k, last_only = {}, {}, 1.0, False
+    v0, v1, k, last_only, last_k = {}, {}, 1.0, False, None
     import random as _r
     perm = None
     if fam == "units":
@@ -506,9 +511,29 @@ def make_pair(rng, db, kind=None, fam=None):
         v1 = dict(mixmode="selfline")
     elif fam == "mix_selfcopy":
         v1 = dict(mixmode="selfcopy")
+    elif fam == "mix_fscale":            # every fraction times kappa: the mixture is kappa times as much of the same water
+        last_k = rng.choice([0.25, 0.5, 2.0, 3.0, round(10 ** rng.uniform(-1, 1), 3)])
+        v1 = dict(fscale=last_k)
+    elif fam == "mix_self_amount":       # f of solution 1 mixed with nothing else vs 1.0 of it: the solution itself, f times
+        f0 = sysm.fracs[0]
+        v0 = dict(mixmode="single", fscale=1.0 / f0)
+        v1 = dict(mixmode="single")
+        last_k = f0
+    elif fam == "mix_self_split":
+        f0 = sysm.fracs[0]
+        v0 = dict(mixmode="single", fscale=1.0 / f0)
+        v1 = dict(mixmode="singlesplit")
+        last_k = f0
+    elif fam == "mix_nested":            # (1+2)+3 vs the direct three-way mix
+        v0, v1, last_only = dict(mixmode="direct3"), dict(mixmode="nest12_3"), True
+    elif fam == "mix_nested2":           # (3+2)+1 vs (1+2)+3
+        v0, v1, last_only = dict(mixmode="nest12_3"), dict(mixmode="nest23_1"), True
+    elif fam == "mix_nested_water":      # nested order and a water factor at once
+        k = rng.choice([1e-2, 0.1, 10.0, 100.0])
+        v0, v1, last_only = dict(mixmode="direct3"), dict(mixmode="nest23_1", k=k), True
     ta, obs = sysm.render(v0)
     tb, _ = sysm.render(v1, rng_perm=perm)
-    return dict(kind=kind, fam=fam, k=k, a=ta, b=tb, last_only=last_only, obs=[(t, h) for t, h, _ in obs])
+    return dict(kind=kind, fam=fam, k=k, a=ta, b=tb, last_only=last_only, last_k=last_k, obs=[(t, h) for t, h, _ in obs])
 
 
 def judge_pair(pair, ba, bb, stats=None):
@@ -520,7 +545,7 @@ def judge_pair(pair, ba, bb, stats=None):
         return "skip", "both descriptions end with an error: " + ea[-100:]
     if (rca != 0) != (rcb != 0):
         return "asym", f"one description fails: base rc={rca} {ea[-150:]} | transformed rc={rcb} {eb[-150:]}"
-    d = compare_tables(pair["obs"], ra, rb, pair["k"], pair["last_only"], stats)
+    d = compare_tables(pair["obs"], ra, rb, pair["k"], pair["last_only"], stats, pair.get("last_k"))
     if d:
         return "bad", d
     return "ok", len(ra) - 1
@@ -610,6 +635,22 @@ def run(ctx):
                               {"kind": "mix", "input": text, "lines": lines, "detail": det}))
             break
     ctx.cov["mixing"] = mstat
+    targeted = []
+    mixfail = [c for c in corr_fail if c and c[1].get("kind") == "mix"]
+    if mixfail:
+        # protocol Q, targeted: the differing field of add_mix / cxxSolution::add says which feature the failing pair needs
+        det = mixfail[0][1]["detail"]
+        AM = ["tc", "ph", "pe", "mu", "ah2o", "density", "totalH", "totalO", "cb", "water", "patm"]
+        field = None
+        if " field " in det:
+            i = int(det.split(" field ")[1].split(":")[0])
+            field = AM[i] if det.startswith("add_mix") and i < len(AM) else None
+        # cb → analyses that are not charge balanced; water / intensive weights → unequal water masses and fraction sums ≠ 1
+        # (both are what every mix system of the generator has; `imbalanced` forces the first)
+        emph = "imbalanced" if field in ("cb", None) else None
+        mixfams = [f for f in FAMILIES if f.startswith("mix_")] + ["water", "renumber"]
+        targeted = [make_pair(rng, db, "mix", mixfams[i % len(mixfams)], emph) for i in range(40 * len(mixfams))]
+        ctx.cov["targeted_search"] = {"differing": det, "field": field, "pairs": len(targeted), "emphasis": emph or "default"}
     if corr_fail:
         big = True          # correspondence broken: search at the thorough budget
 
@@ -619,6 +660,7 @@ def run(ctx):
     combos = [(k, f) for k in KINDS for f in FAMILIES
               if (f.startswith("mix_") and k == "mix") or (not f.startswith("mix_") and not (k == "mix" and f in ("dupblock",)))
               and not (f == "spread" and k == "mix")]
+    pairs += targeted
     for i in range(n3):
         k, f = combos[i % len(combos)] if i < 2 * len(combos) else rng.choice(combos)
         pairs.append(make_pair(rng, db, k, f))
@@ -640,7 +682,7 @@ def run(ctx):
             what = ("the two descriptions give different results" if st == "bad"
                     else "one description runs, the equivalent one ends with an error")
             ctx.violation(f"C15 {key} (k={p['k']}): {what}: {det}",
-                          {"kind": "pair", "pair": {x: p[x] for x in ("kind", "fam", "k", "a", "b", "last_only", "obs")}, "detail": det})
+                          {"kind": "pair", "pair": {x: p[x] for x in ("kind", "fam", "k", "a", "b", "last_only", "last_k", "obs")}, "detail": det})
             break
     # (ii-b) unit changes inside every family, all spellings: each convert_units case against its restatement in the base unit
     if not ctx.violations:
